@@ -42,7 +42,7 @@ ASSUMPTIONS = [
     "(or an Index/Typecast/Alias wrapper around one); containment and derived relations (DirectProxy, RoleTag, "
     "AttributeMatcher, reqif relation/attribute accessors, diagrams) are judged for soundness only",
     "short type names denote registered wrapper classes; an unregistered short name must raise ValueError",
-    "lists longer than 1500 elements are truncated with a slice before filter checks",
+    "for the by/exclude monitor lists longer than 1500 (quick) / 6000 (thorough) elements are replaced by a window of that size at a random offset",
 ]
 TRUSTED = ["C10: lxml iteration order = document order; Python `is` identity of lxml proxies kept alive by the harness"]
 MANIFEST = dict(
@@ -626,11 +626,15 @@ def subseq(small: list, big: list) -> bool:
 
 def check_filters_on(ctx: Ctx, out: Outcome, lst, label: str, state: str, origin: dict, fcases: list,
                      only: tuple | None = None) -> None:
-    from capellambse.model import ElementList
+    from capellambse.model import ElementList, ModelElement
 
     rng = ctx.rng
-    if len(lst) > MAXLIST:
-        lst = lst[:MAXLIST]
+    cap = ctx.pick(MAXLIST, 4 * MAXLIST)
+    if len(lst) > cap:
+        # a window at a random place instead of always the head of the list (only the 3 big models exceed the cap)
+        k0 = rng.randrange(len(lst) - cap + 1) if only is None else 0
+        lst = lst[k0:k0 + cap]
+        out.hit("filter:list-window")
     if len(lst) == 0:
         return
     L = list(lst._elements)
@@ -642,6 +646,8 @@ def check_filters_on(ctx: Ctx, out: Outcome, lst, label: str, state: str, origin
     names = filterable_names(lst, rng, ctx.pick(6, 14))
     if type(lst).__name__.endswith("MixedElementList") or type(lst).__name__ == "MixedElementList":
         names.append("__type__")
+    if not view:
+        names += [n_ for n_ in ("parent", "layer") if n_ not in names]  # object-valued attributes (dir(list) lists string-valued ones)
     if only is not None:
         names = [only[0]]
     for a in names:
@@ -669,6 +675,8 @@ def check_filters_on(ctx: Ctx, out: Outcome, lst, label: str, state: str, origin
             for c in cand:
                 if isinstance(c, (str, int, float, bool, type(None))) and c not in vals:
                     vals.append(c)
+                elif isinstance(c, ModelElement) and not any(isinstance(x, ModelElement) and x._element is c._element for x in vals):
+                    vals.append(c)  # objects as filter values: by_parent(obj), by_layer(obj), by_<relation>(obj)
         if len(vals) > ctx.pick(3, 6):
             vals = rng.sample(vals, ctx.pick(3, 6))
         vals.append("∅ no such value")
@@ -677,6 +685,11 @@ def check_filters_on(ctx: Ctx, out: Outcome, lst, label: str, state: str, origin
         for v in vals:
             arg = v.lower() if (a == "__type__" and isinstance(v, str)) else v
             rep = {"kind": "filter", "model": label, "state": state, "origin": origin, "attr": a, "value": v if isinstance(v, (str, int, float, bool, type(None))) else str(v)}
+            if isinstance(v, ModelElement):
+                rep["value_uuid"] = getattr(v, "uuid", None)
+                out.hit("filter:object-value")
+            elif isinstance(v, float):
+                out.hit("filter:float-value")
             try:
                 by = getattr(lst, by_name)(arg, single=False)
                 ex = getattr(lst, ex_name)(arg)
@@ -1325,6 +1338,11 @@ def run(ctx: Ctx) -> Outcome:
                         out.disagree("search", {"model": label, "state": state, "q": q}, iv["ok"][:20], mv["ok"][:20])
                     if sorted(mv["ok"]) != sc["ok"]:
                         out.disagree("search.scan", {"model": label, "state": state, "q": q}, sorted(mv["ok"])[:20], sc["ok"][:20])
+                    if mv.get("sorted"):
+                        # theorem search_single_type_document_order: one type, index in document order -> the very list
+                        out.hit("corr.search:document-order")
+                        if mv["ok"] != sc["ok"] or iv["ok"] != sc["ok"]:
+                            out.disagree("search.order", {"model": label, "state": state, "q": q}, iv["ok"][:20], sc["ok"][:20])
                 out.traces_validated += 1
             else:
                 impl_l, ys = impl
@@ -1408,7 +1426,8 @@ def replay(ctx: Ctx, case: dict):
             lst = model.search(*([org["type"]] if "type" in org else org["types"]))
         else:
             lst = getattr(model.by_uuid(org["of"]), org["attr"])
-        check_filters_on(Ctx(ctx.prop, "thorough", ctx.seed), o, lst, label, "loaded", org, [], only=(case["attr"], case["value"]))
+        val = model.by_uuid(case["value_uuid"]) if case.get("value_uuid") else case["value"]
+        check_filters_on(Ctx(ctx.prop, "thorough", ctx.seed), o, lst, label, "loaded", org, [], only=(case["attr"], val))
         return o.findings[0].what if o.findings else None
     elif kind == "children":
         check_children(Ctx(ctx.prop, "thorough", ctx.seed), o, model, label, "loaded")
